@@ -29,7 +29,7 @@ type Ctx struct {
 	noExpand int                               // >0 while a summary is being computed
 	anchors  *anchorFile                       // the committed baseline of function fingerprints (anchors.go)
 	refound  map[string]*ssa.Function
-	reach    map[*ssa.Function]bool            // reachable from exported API
+	reach    map[*ssa.Function]bool // reachable from exported API
 	declOf   map[*types.Func]*ast.FuncDecl
 	astFiles map[*ast.File]*packages.Package
 }
